@@ -12,7 +12,7 @@ DESCRIPTION = {
              "the published args/kwargs (no keys added by another handler's details) and EventDetails iff requested, whose .subscription is that handler's own Subscription object; a raising handler stops nothing and nothing escapes "
              "onMessage; no handler is invoked after its unsubscribe() returned; UNSUBSCRIBE is written exactly when a handler list becomes empty; events for an id whose removal "
              "is in flight are dropped silently; for a never-held id ProtocolError.  Handlers are plain callables, callables asking for details under either spelling, or decorated methods of a subscribed object (also one that is an empty container): a method must be invoked with exactly that object as self.  Non-trivial = >=2 handlers on one id with an unsubscribe or raising handler between two "
-             "events; distinct by history digest."),
+             "events; distinct by history digest. Enumerated in addition: the router refuses an UNSUBSCRIBE (ERROR) while a second handler joins the same subscription id before or after that reply: the first handler is never invoked again, the second gets every later EVENT once, and removing it sends UNSUBSCRIBE."),
     "assumptions": ["order is asserted only among handlers of one subscription id", "a sibling unsubscribed by another handler *during* the dispatch of an event may or may not see that event"],
 }
 
@@ -23,6 +23,7 @@ def plan(tier, seed):
     for i, fw in enumerate(("twisted", "asyncio")):
         for sh in range(3 if tier == "quick" else 8):
             jobs.append({"func": "machine", "fw": fw, "name": "machine/%s/%d" % (fw, sh), "args": {"seed": seed * 1000 + i * 100 + sh, "n": n}})
+        jobs.append({"func": "refused_unsubscribe", "fw": fw, "name": "refused_unsubscribe/" + fw, "args": {}})
     return jobs
 
 
@@ -554,9 +555,92 @@ def machine(col, seed, n):
     run_machine(col, "machine", make_machine_factory(col), n, seed, step_count=35)
 
 
+def refused_unsubscribe_one(col, c):
+    """the router refuses an UNSUBSCRIBE (ERROR) - nothing changes at the router - while another handler has joined (or joins afterwards) the same
+    subscription id: the handler that asked to be removed is never invoked again, the other one gets every later EVENT exactly once, no EVENT
+    for that id is a protocol violation, and removing the remaining handler sends UNSUBSCRIBE"""
+    from harness.wampsess import SessionWorld
+    w = SessionWorld(serializer=c["ser"])
+
+    def fail(what, detail):
+        col.finding("C11|refused-unsubscribe|" + what, "%s  [%r]" % (detail, c), dict(c, check="refused_unsubscribe"))
+    try:
+        w.join()
+        M, sess = w.message, w.session
+        got1, got2 = [], []
+        SID = 4711
+        t1 = w.track(w.call(lambda: sess.subscribe(lambda *a, **k: got1.append((a, k)), "com.example.t1")))
+        w.feed(M.Subscribed(w.t.sent[-1].request, SID))
+        sub1 = t1.value
+        n0 = len(w.t.sent)
+        tu = w.track(w.call(lambda: sub1.unsubscribe()))
+        unsub = [m for m in w.t.sent[n0:] if type(m).__name__ == "Unsubscribe"]
+        if len(unsub) != 1:
+            fail("unsubscribe-not-sent-for-last-handler", repr([type(m).__name__ for m in w.t.sent[n0:]]))
+            return
+
+        def join2():
+            t2 = w.track(w.call(lambda: sess.subscribe(lambda *a, **k: got2.append((a, k)), "com.example.t1")))
+            e_ = w.feed(M.Subscribed(w.t.sent[-1].request, SID))
+            if e_ is not None:
+                fail("subscribed-raised|" + exc_key(e_), repr(e_))
+            return t2
+
+        def refuse():
+            e_ = w.feed(M.Error(34, unsub[0].request, "wamp.error.no_such_subscription"))
+            if e_ is not None:
+                fail("unsubscribed-reply-raised|" + exc_key(e_), repr(e_))
+        if c["order"] == "join-then-error":
+            t2 = join2()
+            if c["event_between"]:
+                w.feed(M.Event(SID, 9000, args=[0]))
+            refuse()
+        else:
+            refuse()
+            t2 = join2()
+        if tu.n != 1 or tu.ok:
+            fail("refused-unsubscribe-did-not-fail-its-request", "n=%d ok=%r" % (tu.n, tu.ok))
+        n_ev = 1 if (c["order"] == "join-then-error" and c["event_between"]) else 0
+        for k in range(2):
+            e_ = w.feed(M.Event(SID, 9001 + k, args=[k + 1]))
+            n_ev += 1
+            if e_ is not None:
+                fail("event-raised|" + exc_key(e_), "EVENT for subscription %d with a handler attached raised %r" % (SID, e_))
+                return
+        if got1:
+            fail("unsubscribed-handler-invoked", repr(got1))
+        if len(got2) != n_ev:
+            fail("event-count", "handler attached to the id got %d of %d events" % (len(got2), n_ev))
+        n1 = len(w.t.sent)
+        if t2.done and t2.ok:
+            w.track(w.call(lambda: t2.value.unsubscribe()))
+            if [type(m).__name__ for m in w.t.sent[n1:]] != ["Unsubscribe"]:
+                fail("unsubscribe-not-sent-for-last-handler", "second handler removed: sent %r" % ([type(m).__name__ for m in w.t.sent[n1:]],))
+        else:
+            fail("second-subscribe-not-completed", "n=%d" % t2.n)
+        if w.d.loop_errors:
+            fail("loop-exception", repr(w.d.loop_errors[0])[:300])
+    finally:
+        w.close()
+
+
+def refused_unsubscribe(col):
+    for ser in ("json", "cbor"):
+        for order in ("join-then-error", "error-then-join"):
+            for ev in (False, True):
+                c = {"ser": ser, "order": order, "event_between": ev}
+                refused_unsubscribe_one(col, c)
+                col.case(True, enum=True, cls=["refused-unsubscribe/" + order], sample=c)
+    col.exhaustive.append("C11 refused UNSUBSCRIBE with a second handler on the same id: 2 orders x event in between x 2 serializers")
+
+
 def replay(col, case):
     case = dec(case)
     c = case.get("case", case)
+    if c.get("check") == "refused_unsubscribe":
+        refused_unsubscribe_one(col, c)
+        col.case()
+        return
     i = Interp(col, c["config"]["serializer"])
     try:
         for s in c["steps"]:
